@@ -81,7 +81,13 @@ impl fmt::Display for Sx {
             Sx::Bool(false) => write!(f, "#f"),
             Sx::Char(c) => write!(f, "#\\{}", c),
             Sx::Str(s) => write_str_lit(f, s),
-            Sx::Sym(s) => write!(f, "{}", s),
+            Sx::Sym(s) => {
+                if s.is_empty() || s.chars().any(|c| c.is_whitespace() || "()\";|'".contains(c)) {
+                    write!(f, "|{}|", s)
+                } else {
+                    write!(f, "{}", s)
+                }
+            }
             Sx::List(v) => {
                 // quote abbreviation is NOT used: the interpreter rejects it inside data
                 write!(f, "(")?;
